@@ -20,12 +20,40 @@ import (
 // ------------------------------------------------------------------------------------------------
 // what the scripted browser holds: every item remembers the step that issued it
 
+// what the generator observed about the IdP login an authenticator session descends from
+type vouch struct {
+	now     int64
+	email   string
+	called  bool
+	revoked *int64 // instant the grant was revoked (shared by every descendant)
+	grantNo int
+}
+
+// ... about the /sign_in that minted a code
+type mint struct {
+	now   int64
+	email string
+	uri   string
+	sigOK bool
+	v     *vouch
+}
+
+// ... about the proxy login callback a proxy session descends from
+type lineage struct {
+	now    int64
+	host   string
+	email  string
+	redeem bool
+	m      *mint
+}
+
 type pck struct { // a session cookie of the proxy
 	step   int
 	sess   *sessions.SessionState
 	capOff int64 // virtual offset (seconds) when it was captured
 	root   int   // step of the proxy login callback it descends from
 	host   string
+	lin    *lineage
 }
 
 type ack struct { // a session cookie of the authenticator
@@ -34,6 +62,7 @@ type ack struct { // a session cookie of the authenticator
 	sess      *sessions.SessionState
 	capOff    int64
 	root      int // step of the IdP login (authenticator callback) it descends from; -1 unknown
+	v         *vouch
 }
 
 type codeRef struct { // an auth code
@@ -42,6 +71,7 @@ type codeRef struct { // an auth code
 	capOff int64
 	state  string // the state parameter echoed next to it
 	host   string
+	m      *mint
 }
 
 type sigRef struct { // a signed redirect issued by the proxy
@@ -68,7 +98,8 @@ type hist struct {
 	nflow  int // nonces for symbolic flow seals
 	sids   map[string]int
 	note   string
-	grants int // IdP logins observed so far (= next grant number)
+	grants int     // IdP logins observed so far (= next grant number)
+	outs   []int64 // instants of proxy requests during which the authenticator or the IdP was kept unavailable
 }
 
 func newHist(w *world, note string) *hist {
@@ -463,17 +494,41 @@ func (h *hist) proxy(rq pReq) pRes {
 			callsC = append(callsC, "P.CProfile")
 		}
 	}
-	presCoq, rootCoq := "None", "None"
+	presCoq, chainCoq := "None", "None"
 	if pres != nil {
 		presCoq = "(Some " + h.psessCoq(pres, h.off) + ")"
-		rootCoq = optNat(rq.Ck.ck.root)
+		chainCoq = chainCoqOf(rq.Ck.ck.lin)
 	}
-	codeFrom := "None"
-	if isCb && rq.Code.kind == 1 {
-		codeFrom = optNat(rq.Code.cd.step)
+	w.idp.mu.Lock()
+	idpDown := w.idp.down
+	w.idp.mu.Unlock()
+	if rq.Link != 0 || idpDown {
+		h.outs = append(h.outs, now)
+	}
+	var outsC []string
+	for _, t := range h.outs {
+		outsC = append(outsC, c.Z(t))
+	}
+	// the lineage of a session this step handed out
+	if res.saved != nil {
+		if isCb {
+			redeemed := false
+			for _, e := range bc {
+				if e == "redeem" {
+					redeemed = true
+				}
+			}
+			lin := &lineage{now: now, host: rq.Host, email: res.saved.sess.Email, redeem: redeemed}
+			if rq.Code.kind == 1 {
+				lin.m = rq.Code.cd.m
+			}
+			res.saved.lin = lin
+		} else if rq.Ck.kind == 1 {
+			res.saved.lin = rq.Ck.ck.lin
+		}
 	}
 	obs := fmt.Sprintf("(OP (mk_pobs %d %s %s %s %s %s %s %s %s))", rec.Code, c.List(seenCoq), locCoq, effCoq, c.List(callsC), callsCoq(idpCalls),
-		presCoq, rootCoq, codeFrom)
+		presCoq, chainCoq, c.List(outsC))
 	// ---- the symbolic event
 	stateW, csrfW := "(WJunk 0)", "None"
 	if isCb {
@@ -516,6 +571,23 @@ func rawRequest(method, target, host string, hdrs [][2]string, cookies []string,
 	return req
 }
 
+func optZ(p *int64) string {
+	if p == nil {
+		return "None"
+	}
+	return "(Some " + c.Z(*p) + ")"
+}
+
+// the generator's observations about the lineage of a proxy cookie, as Corr_IntSystem.chain
+func chainCoqOf(l *lineage) string {
+	if l == nil || l.m == nil || l.m.v == nil {
+		return "None"
+	}
+	m, v := l.m, l.m.v
+	return fmt.Sprintf("(Some (mk_chain %s %s %s %s %s %s %s %s %s %s %s %s))", c.Z(l.now), c.Str(l.host), c.Str(l.email), c.Bool(l.redeem),
+		c.Z(m.now), c.Str(m.email), c.Str(m.uri), c.Bool(m.sigOK), c.Z(v.now), c.Str(v.email), c.Bool(v.called), optZ(v.revoked))
+}
+
 func tmplOrNil(t tv) string {
 	if len(t.Coq) == 0 {
 		return "[]"
@@ -544,6 +616,8 @@ type aReq struct {
 	Csrf               string // CSRF cookie value ("" none)
 	IdpCode            string // callback: the IdP code presented
 	SigFrom            int    // step of the proxy redirect whose signature is presented unchanged (-1)
+	URI                string // the redirect_uri presented
+	SigOK              bool   // (redirect_uri, sig, ts) are those of a proxy redirect, unchanged, and the sig verifies
 	Route              int
 	Note               string
 }
@@ -622,12 +696,21 @@ func (h *hist) auth(rq aReq) aRes {
 					c.Must(fmt.Errorf("authenticator set a session cookie that does not open"))
 				}
 				root := -1
+				var vv *vouch
 				if rq.Leaf == "/callback" {
 					root = step
+					called := false
+					for _, ic := range idpCalls {
+						if ic.Kind == "redeem" {
+							called = true
+						}
+					}
+					vv = &vouch{now: now, email: s.Email, called: called, grantNo: h.grants}
 				} else if rq.Ck.kind == 1 {
 					root = rq.Ck.ck.root
+					vv = rq.Ck.ck.v
 				}
-				a := &ack{step: step, idx: len(res.cookies), slug: rq.Slug, sess: s, capOff: h.off, root: root}
+				a := &ack{step: step, idx: len(res.cookies), slug: rq.Slug, sess: s, capOff: h.off, root: root, v: vv}
 				res.cookies = append(res.cookies, a)
 				res.cleared = false
 				sessOps = append(sessOps, "F.OpSet "+h.fsessCoq(s, h.off))
@@ -656,6 +739,11 @@ func (h *hist) auth(rq aReq) aRes {
 				if cs != nil {
 					codeCoq = "(Some " + h.fsessCoq(cs, h.off) + ")"
 					res.code = &codeRef{step: step, sess: cs, capOff: h.off, state: qv.Get("state"), host: u.Host}
+					mt := &mint{now: now, email: cs.Email, uri: rq.URI, sigOK: rq.SigOK}
+					if rq.Ck.kind == 1 {
+						mt.v = rq.Ck.ck.v
+					}
+					res.code.m = mt
 				}
 				locCoq = fmt.Sprintf("(ALCode %s %s %s)", c.Str(head), codeCoq, c.Str("STATE"))
 			} else if strings.HasPrefix(res.loc, w.idp.srv.URL) {
@@ -695,13 +783,24 @@ func (h *hist) auth(rq aReq) aRes {
 			}
 		}
 	}
-	presCoq, rootCoq := "None", "None"
+	presCoq, revCoq := "None", "None"
 	if pres != nil {
 		presCoq = "(Some " + h.fsessCoq(pres, h.off) + ")"
-		rootCoq = optNat(rq.Ck.ck.root)
+		if rq.Ck.ck.v != nil {
+			revCoq = optZ(rq.Ck.ck.v.revoked)
+		}
+	}
+	// a sign-out the IdP confirmed revokes the grant of the presented session
+	if rq.Leaf == "/sign_out" && rec.Code == 302 && res.cleared && pres != nil && rq.Ck.ck.v != nil && rq.Ck.ck.v.revoked == nil {
+		for _, ic := range idpCalls {
+			if ic.Kind == "revoke" {
+				t := now
+				rq.Ck.ck.v.revoked = &t
+			}
+		}
 	}
 	obs := fmt.Sprintf("(OA (mk_aobs %d %s %s %s %s %s %d %s %s %s))", rec.Code, locCoq, c.List(sessOps), c.List(csrfOps), callsCoq(idpCalls), jsonCoq,
-		rq.Route, presCoq, rootCoq, optNat(rq.SigFrom))
+		rq.Route, presCoq, c.Str(rq.URI), revCoq)
 	// ---- the symbolic event
 	script := h.scriptCoq(prov, rtok, access, rq.IdpCode, res.nonce)
 	urlenc, cterr := false, false
@@ -738,12 +837,16 @@ func (h *hist) idpDown(b bool) {
 	h.idpChange("(IDown "+c.Bool(b)+")", map[string]interface{}{"down": b})
 }
 
-// revoke the grant with the given number (the n-th IdP login of this history)
-func (h *hist) idpRevoke(g *grant, n int) {
+// revoke the grant behind an IdP login of this history (v: what the generator observed about that login)
+func (h *hist) idpRevoke(g *grant, v *vouch) {
 	h.w.idp.mu.Lock()
 	g.revoked = true
 	h.w.idp.mu.Unlock()
-	h.idpChange(fmt.Sprintf("(IRevoke %s)", c.Nat(n)), map[string]interface{}{"revoke_grant": n})
+	if v.revoked == nil {
+		t := h.vnow()
+		v.revoked = &t
+	}
+	h.idpChange(fmt.Sprintf("(IRevoke %s)", c.Nat(v.grantNo)), map[string]interface{}{"revoke_grant": v.grantNo})
 }
 
 // advance the virtual clock by about d seconds, keeping >= 90 s away from every deadline in [dls] (virtual seconds)
